@@ -12,8 +12,8 @@ from concurrent.futures import ThreadPoolExecutor
 import vlib
 
 KINDS = {
-    "C05": ["Rebootstrap", "ResumeOlder", "ResumeNewer", "Unattested", "ApplyMismatch", "ApplyOrder", "ApplyNotDurable", "Panic", "NoConverge", "SnapshotConfStale"],
-    "C03": ["AckedLost", "NeverSubmitted", "ContentsVsLog", "Panic", "Rebootstrap", "ResumeNewer"],
+    "C05": ["Rebootstrap", "ResumeOlder", "ResumeNewer", "Unattested", "ApplyMismatch", "ApplyOrder", "ApplyNotDurable", "Panic", "NoConverge", "SnapshotConfStale", "SnapshotLabel"],
+    "C03": ["AckedLost", "NeverSubmitted", "ContentsVsLog", "Panic", "Rebootstrap", "ResumeNewer", "SnapshotLabel"],
 }
 POINTS = ["ready", "send1", "presave", "saved", "applied", "send2", "preadvance", "advanced"]
 
@@ -72,6 +72,10 @@ def scenarios(ctx):
     for j, p in enumerate(jp):
         for c in ([1, 2] if quick else [1, 2, 3, 5]):
             add(n=4, initial=3, conf="joiner", crashnode=4, crashcycle=c, crashpoint=p, ops=3, opsafter=2, snapshotat=(3 if (j + c) % 3 == 0 else 0))
+    # long logs: a local snapshot after more than a hundred entries (anything that keeps a tail of the log behind
+    # the snapshot has to label the snapshot with what it contains), then a crash and a restart from it
+    for j in range(2 if quick else 6):
+        add(n=1 if j % 2 else 3, ops=118 + 7 * j, snapshotat=112 + 5 * j, crashnode=-1 if j % 2 == 0 else 1, crashcycle=1, crashpoint="never (the node dies idle, after the client phase)", opsafter=3)
     add(n=1, ops=4, opsafter=0)
     add(n=3, ops=6, follower=True)
     return out
